@@ -183,28 +183,6 @@ Definition negate_gen (has_i8 : bool) (x : value * bool) : res (value * bool) :=
 Definition negate := negate_gen true.
 Definition negate_old := negate_gen false.
 
-(* ---------- incrementByteCode: variable value v, step (inc, ic) ---------- *)
-Record cfg := { inc_i8 : bool;            (* Increment has an int8 case *)
-                inc_strict_const : bool;  (* Increment lets a constant step adapt in strict mode *)
-                step_const : bool }.      (* x++ / x-- push the step as a constant *)
-Definition cfg_now : cfg := {| inc_i8 := true; inc_strict_const := true; step_const := true |}.
-Definition cfg_old : cfg := {| inc_i8 := false; inc_strict_const := false; step_const := false |}.
-
-Definition increment (g : cfg) (m : mode) (v : value) (step : value * bool) : res value :=
-  let '(inc, ic) := step in
-  let strict := is_strict m in
-  bind (if negb strict || (inc_strict_const g && ic) then normalize v false inc ic strict
-        else if kind_eqb (kind_of v) (kind_of inc) then Ok (v, inc) else Err ETypeMismatch)
-       (fun p =>
-          match fst p, snd p with
-          | VInt k a, VInt _ b =>
-              if ikind_eqb k I8 && negb (inc_i8 g) then Err EInvalidType
-              else Ok (VInt k (wrap k (a + b)))
-          | VStr a, VStr b => Ok (VStr (a ++ b))
-          | VBool _, _ => Err EInvalidType
-          | _, _ => Err EOther
-          end).
-
 (* ---------- boundary 1: Store = Context.checkType / checkTypeCore ---------- *)
 Definition store (m : mode) (existing : value) (x : value * bool) : res value :=
   let '(v, c) := x in
@@ -220,6 +198,37 @@ Definition store (m : mode) (existing : value) (x : value * bool) : res value :=
                        else Err EVarType
            end
   end.
+
+(* ---------- incrementByteCode: variable value v, step (inc, ic) ---------- *)
+Record cfg := { inc_i8 : bool;            (* Increment has an int8 case (560ece7c) *)
+                inc_strict_const : bool;  (* Increment lets a constant step adapt in strict mode (6e63ab2c) *)
+                inc_like_store : bool;    (* Increment stores its sum through checkType and has a bool case (8521b872) *)
+                step_const : bool }.      (* x++ / x-- push the step as a constant (4a0d431a) *)
+Definition cfg_now : cfg :=
+  {| inc_i8 := true; inc_strict_const := true; inc_like_store := true; step_const := true |}.
+Definition cfg_old : cfg :=
+  {| inc_i8 := false; inc_strict_const := false; inc_like_store := false; step_const := false |}.
+
+(* the type switch on the variable's (normalized) value *)
+Definition incr_sum (g : cfg) (v1 v2 : value) : res value :=
+  match v1, v2 with
+  | VInt k a, VInt _ b =>
+      if ikind_eqb k I8 && negb (inc_i8 g) then Err EInvalidType
+      else Ok (VInt k (wrap k (a + b)))
+  | VStr a, VStr b => Ok (VStr (a ++ b))
+  | VBool a, VBool b => if inc_like_store g then Ok (VBool (a && b)) else Err EInvalidType
+  | VBool _, _ => if inc_like_store g then Err EOther else Err EInvalidType
+  | _, _ => Err EOther                                     (* not reachable: both operands have one kind here *)
+  end.
+
+Definition increment (g : cfg) (m : mode) (v : value) (step : value * bool) : res value :=
+  let '(inc, ic) := step in
+  let strict := is_strict m in
+  bind (if negb strict || (inc_strict_const g && ic) then normalize v false inc ic strict
+        else if kind_eqb (kind_of v) (kind_of inc) then Ok (v, inc) else Err ETypeMismatch)
+       (fun p =>
+          bind (incr_sum g (fst p) (snd p))
+               (fun s => if inc_like_store g then store m v (s, false) else Ok s)).
 
 (* ---------- boundary 3: argument = requiredTypeByteCodeWithConst + fetchArgValue's Coerce ---------- *)
 (* tnum = data.IsNumeric(<type descriptor>): before the repair only byte, int, int32, int64 *)
